@@ -5,7 +5,10 @@ import (
 	"context"
 	"encoding/json"
 	"fmt"
+	dhttp "github.com/cloudwego/dynamicgo/http"
 	"math"
+	stdhttp "net/http"
+	"sort"
 	"strconv"
 	"unicode/utf8"
 
@@ -167,6 +170,109 @@ func runC18(c *h.Ctx) {
 		if cs.I == 1 {
 			cs.Sample(map[string]interface{}{"phase": "j2t-join", "doc": cc.doc, "result": res})
 		}
+	})
+
+	// ---- (a4) documents with null and unknown members (nested objects/arrays, strings ending in escapes): the value
+	// skipper of every flavour
+	c.Run("j2t-unknown-join", c.N(2000, 60000), func(cs *h.Case) {
+		cc, hasUnknown, _ := c02NullUnknownCase(cs)
+		if cc == nil {
+			return
+		}
+		cs.Info("idl", cc.idl)
+		cs.Info("doc", cc.doc)
+		cs.Info("opts", fmt.Sprintf("%+v", cc.opts))
+		cv := newJ2T(cs, cc.opts)
+		out, err := cv.Do(context.Background(), cc.desc, []byte(cc.doc))
+		res := "rejected"
+		if err == nil {
+			res = "ok:" + fmt.Sprintf("%x", out)
+			if len(out) > 600 {
+				res = "ok:sha:" + h.Sha(out)
+			}
+		}
+		switch {
+		case cc.wantErr != "":
+			if err == nil {
+				cs.Viol("flavour:j2t-unknown:accepted-under-disallow", "out", out)
+			}
+		case err != nil:
+			cs.Viol("flavour:j2t-unknown:error-on-conforming", "err", err)
+		case !bytes.Equal(out, cc.want):
+			if d, derr := tref.Decode(out, tref.STRUCT); derr != nil || !equalModNegZero(d, cc.model) {
+				cs.Viol("flavour:j2t-unknown:wrong-bytes", "got", out, "want", cc.want)
+			}
+		}
+		cs.Res("j2t-unknown", res)
+		cs.Cover("j2t_unknown_join_cases")
+		if hasUnknown {
+			cs.Cover("j2t_unknown_join_with_unknown_members")
+		}
+		cs.Distinct(fmt.Sprintf("ju-%v-%s", hasUnknown, shapeKey(cc.model)[:min(len(shapeKey(cc.model)), 18)]))
+	})
+
+	// ---- (a5) http-mapped requests, preceded in half of the cases by a failing conversion (missing required source,
+	// with body fallback): the pooled native state must not leak into the next call of any flavour
+	var httpDesc *thrift.TypeDescriptor
+	c.Run("j2t-http-join", c.N(1500, 40000), func(cs *h.Case) {
+		if httpDesc == nil {
+			hs, err := thrift.NewDescritorFromContent(context.Background(), "h.thrift", c12HTTPIDL, nil, false)
+			if err != nil {
+				cs.Viol("flavour:parse-idl", "err", err)
+				return
+			}
+			if httpDesc, err = RootOf(hs, "M"); err != nil {
+				cs.Viol("flavour:parse-idl", "err", err)
+				return
+			}
+		}
+		mk := func(q, rq string, hdr int, cookie string, body string) *dhttp.HTTPRequest {
+			u := "http://verif.example/p"
+			if q != "" {
+				u += "?q=" + q + "&rq=" + rq
+			}
+			sr, _ := stdhttp.NewRequest("POST", u, bytes.NewReader([]byte(body)))
+			sr.Header.Set("X-H", strconv.Itoa(hdr))
+			sr.Header.Set("Content-Type", "application/json")
+			sr.AddCookie(&stdhttp.Cookie{Name: "c", Value: cookie})
+			r, _ := dhttp.NewHTTPRequestFromStdReq(sr)
+			return r
+		}
+		q, cookie, dflt := c17Word(cs.R, false), c17Word(cs.R, false), c17Word(cs.R, false)
+		rq, hdr, plain := cs.R.Intn(100000), cs.R.Intn(100000), int64(cs.R.Intn(1<<40))
+		body := fmt.Sprintf(`{"Plain":%d,"Dflt":%s}`, plain, jsonQuote(dflt))
+		failFirst := cs.R.Bool()
+		if failFirst {
+			// no query: the required fields Q and RQ have no source and are not in the body
+			o := conv.Options{EnableHttpMapping: true, ReadHttpValueFallback: true, TracebackRequredOrRootFields: cs.R.Bool()}
+			cv := j2t.NewBinaryConv(o)
+			ctx := context.WithValue(context.Background(), conv.CtxKeyHTTPRequest, mk("", "", hdr, cookie, body))
+			if _, err := cv.Do(ctx, httpDesc, []byte(body)); err != nil {
+				cs.Cover("j2t_http_join_failing_call_first")
+			}
+		}
+		o := conv.Options{EnableHttpMapping: true, WriteDefaultField: cs.R.Bool()}
+		cv := j2t.NewBinaryConv(o)
+		ctx := context.WithValue(context.Background(), conv.CtxKeyHTTPRequest, mk(q, strconv.Itoa(rq), hdr, cookie, body))
+		out, err := cv.Do(ctx, httpDesc, []byte(body))
+		want := tref.Struct(tref.Field{ID: 1, V: tref.Str(q)}, tref.Field{ID: 2, V: tref.Int32(int32(hdr))}, tref.Field{ID: 3, V: tref.Str(cookie)},
+			tref.Field{ID: 4, V: tref.Int64(plain)}, tref.Field{ID: 5, V: tref.Str(dflt)}, tref.Field{ID: 6, V: tref.Int32(int32(rq))})
+		res := "rejected"
+		if err != nil {
+			cs.Viol("flavour:j2t-http:error-on-conforming", "err", err, "after-failing-call", failFirst)
+		} else if got, derr := tref.Decode(out, tref.STRUCT); derr != nil {
+			cs.Viol("flavour:j2t-http:malformed", "out", out, "after-failing-call", failFirst)
+			res = "malformed"
+		} else {
+			if !tref.EqualUnordered(got, want) {
+				cs.Viol("flavour:j2t-http:wrong-value", "got", got.String(), "want", want.String(), "after-failing-call", failFirst)
+			}
+			sort.Slice(got.Fs, func(i, j int) bool { return got.Fs[i].ID < got.Fs[j].ID })
+			res = "ok:" + got.String()
+		}
+		cs.Res("j2t-http", res)
+		cs.Cover("j2t_http_join_cases")
+		cs.Distinct(fmt.Sprintf("jh-%v-%d", failFirst, cs.I%200))
 	})
 
 	// ---- (b) SkipGo vs SkipNative --------------------------------------------------------------------
